@@ -56,7 +56,7 @@ def r5_to(run, tree):
 def r6_helpers(run, tree):
     run.rule("C02.R6", "numpy dispatch: buffers/units extracted from every argument, other operands passed through",
              "D7 fold of _wrap_numpy over operand kinds", "", floor=4)
-    af.check_wrap_numpy_fold(run, tree, want=("operands",))
+    af.check_wrap_numpy_fold(run, tree, want=("operands", "out-alias"))
 
 
 def r7_end_to_end(run, tree):
